@@ -20,7 +20,8 @@ import (
 // renewRig: an honest formation, mined and synced on both sides, ready for renew/refresh.
 type renewRig struct {
 	*c16Rig
-	contract rhp.ContractRevision
+	contract       rhp.ContractRevision
+	signerOverride rhp.FormContractSigner
 }
 
 func newRenewRig() (*renewRig, error) {
@@ -70,17 +71,21 @@ func newRenewRig() (*renewRig, error) {
 
 func (r *renewRig) call(ctx context.Context, kind string) (rhp.ContractRevision, rhp.TransactionSet, error) {
 	cs := r.renter.n.CM.TipState()
+	var signer rhp.FormContractSigner = r.signer
+	if r.signerOverride != nil {
+		signer = r.signerOverride
+	}
 	switch kind {
 	case "renew":
-		res, err := rhp.RPCRenewContract(ctx, r.w.T, r.renter.n.CM, r.signer, cs, r.w.Prices, r.w.Settings.WalletAddress, r.contract.Revision,
+		res, err := rhp.RPCRenewContract(ctx, r.w.T, r.renter.n.CM, signer, cs, r.w.Prices, r.w.Settings.WalletAddress, r.contract.Revision,
 			proto4.RPCRenewContractParams{ContractID: r.contract.ID, Allowance: types.Siacoins(25), Collateral: types.Siacoins(20), ProofHeight: r.contract.Revision.ProofHeight + 10})
 		return res.Contract, res.RenewalSet, err
 	case "refresh-full":
-		res, err := rhp.RPCRefreshContractFullRollover(ctx, r.w.T, r.renter.n.CM, r.signer, cs, r.w.Prices, r.w.Settings.WalletAddress, r.contract.Revision,
+		res, err := rhp.RPCRefreshContractFullRollover(ctx, r.w.T, r.renter.n.CM, signer, cs, r.w.Prices, r.w.Settings.WalletAddress, r.contract.Revision,
 			proto4.RPCRefreshContractParams{ContractID: r.contract.ID, Allowance: types.Siacoins(5), Collateral: types.Siacoins(4)})
 		return res.Contract, res.RenewalSet, err
 	default:
-		res, err := rhp.RPCRefreshContractPartialRollover(ctx, r.w.T, r.renter.n.CM, r.signer, cs, r.w.Prices, r.w.Settings.WalletAddress, r.contract.Revision,
+		res, err := rhp.RPCRefreshContractPartialRollover(ctx, r.w.T, r.renter.n.CM, signer, cs, r.w.Prices, r.w.Settings.WalletAddress, r.contract.Revision,
 			proto4.RPCRefreshContractParams{ContractID: r.contract.ID, Allowance: types.Siacoins(30), Collateral: types.Siacoins(24)})
 		return res.Contract, res.RenewalSet, err
 	}
